@@ -329,7 +329,7 @@ pub fn run_case(a: &Args, tag: &'static str, idx: u64, acc: &mut Acc) {
 }
 
 pub fn run(a: &Args) -> Acc {
-    let n = a.n(3000, 50000);
+    let n = a.n(5000, 60000);
     par_run(a, "c07", n, |a, idx, acc| run_case(a, "c07", idx, acc))
 }
 
